@@ -1,5 +1,5 @@
 CONSTANTS
-  MaxLen = 5
+  MaxLen = 4
   BlockSizes = {4}
   EmitBS = 1
 INIT SInit
